@@ -22,7 +22,7 @@ contract(US + "gc_scope_top_level.starts_with", props=["C01"],
 
 contract(US + "gc_scope.__getitem__", props=["C01"],
          params=dict(self=GSC, key=Int), result=GSC,
-         requires=["key < 0", "-key <= len(stack_of(self))"],
+         requires=["key < 0", "-key <= len(stack_of(self))"], modifies=["alloc"],
          raises={"RuntimeError": "len(stack_of(self)) + key == 0"},
          ensures=[("slice", "is_new(result) and cls_is(result, '" + US + "gc_scope') and len(stack_of(result)) == len(stack_of(self)) + key and "
                             "prefix_of(stack_of(result), stack_of(self))"),
